@@ -1,16 +1,25 @@
-(* C03: the observable behaviour of the generated (de)serializers of each target under each option set, defined over the
-   code-shaped walkers instantiated with the SHIPPED primitive models:
-     C       Codec/Walker.v  walk_ser / walk_des over  InstancesC.c_prims (opt_little o)      (nunavutSetUxx / nunavutGetU8..64, both
-             renderings of target_endianness)
-     C++     the same walker over  InstancesCpp.cpp_prims (opt_setzeros o)                     (bitspan::setUxx / setZeros / getU8..64)
-     Python  Codec/PyWalker.v  py_walk_ser over  InstancesPySer.py_pyprims  with the explicit Python leaf  TargetPre.py_enc_prim
-             (clamp, two's complement, mask, struct.pack('<e') = round half to even), and  walk_des  over  InstancesPy.py_prims
-   plus the epilogue assertions of the generated routines, compiled in when enable_serialization_asserts is set (Python: always):
-     serialization (c/templates/serialization.j2:78-83):  offset_bits >= min, <= max, offset_bits % 8 == 0
-     deserialization (c/templates/deserialization.j2:64-66):  capacity_bytes >= *inout_buffer_size_bytes  (consumed <= supplied)
-   A failing assertion is the observable `Err EAssert` (abort).  Nothing here mentions the wire specification: that the observables
-   equal it, agree across targets and do not depend on the options is PROVED in Codec/ObsC03Thm.v.  No proofs in this file. *)
-From Verif Require Export CPrims Wire TargetsC03 Walker WalkerBound PyWalker InstancesC InstancesCpp InstancesPy InstancesPySer.
+(* C03: the observable behaviour of the generated (de)serializers of each target under each option set, defined through the
+   TARGET-SHAPED walkers over the SHIPPED primitive models:
+     C       Codec/WalkerX.v  walk_ser_x  / Codec/WalkerXDes.v  walk_des_x  with  WalkerSafe.std_cfg (is_little o): the C templates
+             including the paths that `target_endianness = little` switches - memmove of ceil(w/8) storage bytes for aligned
+             integers, ONE nunavutCopyBits / nunavutGetBits call for arrays of bool / zero-cost primitives (the TRANSLATED
+             `is_zero_cost_primitive` of Generated/Gen_C01.v) - over InstancesC.c_prims (is_little o) (nunavutSetUxx / GetU8..64 in the
+             rendering of that endianness), InstancesX.c_copy (nunavutCopyBits), InstancesXDes.c_getl (nunavutGetBits)
+     C++     Codec/CppWalker.v  cpp_walk_ser / cpp_walk_des  (bitspan sub-spans, setZeros padding, tag-first unions, offset_bytes_ceil)
+             over CppWalkerInst.cppw_prims (bitspan::setUxx / setZeros / getU8..64 of Prims/CppPrims.v)
+     Python  Codec/PyWalker.v  py_walk_ser  over InstancesPySer.py_pyprims with the explicit leaf TargetPre.py_enc_prim, and
+             Codec/PyDesWalker.v  py_walk_des  over PyDesWalkerInst.pyd_prims (ONE shared Deserializer, fetch_* members, fork_bytes)
+             with the alignment annotation sa_dyn; nunavut_support.deserialize reports no consumed size
+   plus, for C and C++,
+     - the build gate of omit_float_serialization_support (a type with float fields has no compilable code: Err EShape stands for
+       "no program"), and
+     - the epilogue assertions compiled in by enable_serialization_asserts:
+         serialization (c/templates/serialization.j2:78-83)    offset_bits >= min, <= max, offset_bits % 8 == 0
+         deserialization (c/templates/deserialization.j2:64-66)  capacity_bytes >= *inout_buffer_size_bytes
+       a failing assertion is the observable `Err EAssert` (abort).  The inner per-field assertion sites are not modelled.
+   Nothing here mentions the wire specification.  No proofs in this file (Codec/ObsC03Thm.v). *)
+From Verif Require Export CPrims Wire TargetsC03 Walker WalkerBound WalkerSafe WalkerX WalkerXDes InstancesC InstancesX InstancesXDes.
+From Verif Require Export CppWalker CppWalkerInst PyWalker InstancesPySer PyDesWalker PyDesWalkerInst.
 Local Open Scope nat_scope.
 
 Definition ser_epilogue_ok (t : ty) (b : list bool) : bool :=
@@ -28,25 +37,29 @@ Definition des_asserts (on : bool) (supplied_bits : nat) (r : res (val * nat)) :
   | Err e => Err e
   end.
 
+Definition gate {A} (tg : target) (o : options) (t : ty) (r : res A) : res A := if buildable tg o t then r else Err EShape.
+
 (* serialize `v` into the caller's buffer `buf` of `cap` bytes (Python owns its zero-filled buffer: `buf` is not looked at) *)
 Definition obs_ser (tg : target) (o : options) (t : ty) (v : val) (buf : list bool) (cap : nat) : res (list bool) :=
   match tg with
-  | TgC => ser_asserts (opt_asserts o) t (walk_ser (c_prims (opt_little o)) t v buf cap)
-  | TgCpp => ser_asserts (opt_asserts o) t (walk_ser (cpp_prims (opt_setzeros o)) t v buf cap)
+  | TgC => gate tg o t (ser_asserts (enable_serialization_asserts o) t
+                          (walk_ser_x (c_prims (is_little o)) c_copy (std_cfg (is_little o)) t v buf cap))
+  | TgCpp => gate tg o t (ser_asserts (enable_serialization_asserts o) t (cpp_walk_ser cppw_prims t v buf cap))
   | TgPy => ser_asserts true t (py_walk_ser py_pyprims py_enc_prim t v cap)
   end.
 
-Definition obs_des (tg : target) (o : options) (t : ty) (bits : list bool) : res (val * nat) :=
+Definition obs_des (tg : target) (o : options) (t : ty) (bits : list bool) : dobs :=
   match tg with
-  | TgC => des_asserts (opt_asserts o) (length bits) (walk_des (c_prims (opt_little o)) t bits)
-  | TgCpp => des_asserts (opt_asserts o) (length bits) (walk_des (cpp_prims (opt_setzeros o)) t bits)
-  | TgPy => des_asserts true (length bits) (walk_des py_prims t bits)
+  | TgC => gate tg o t (with_size (des_asserts (enable_serialization_asserts o) (length bits)
+                                     (walk_des_x (c_prims (is_little o)) c_getl (std_cfg (is_little o)) t bits)))
+  | TgCpp => gate tg o t (with_size (des_asserts (enable_serialization_asserts o) (length bits) (cpp_walk_des cppw_prims t bits)))
+  | TgPy => no_size (py_walk_des pyd_prims sa_dyn t bits)
   end.
 
 (* side conditions of the primitive contracts: whole-byte caller buffer addressable in bits by a size_t *)
 Definition buf_ok (buf : list bool) (cap : nat) : Prop := length buf = 8 * cap /\ (N.of_nat (8 * cap) < two64)%N.
-Definition input_ok (t : ty) (bits : list bool) : Prop := length bits mod 8 = 0 /\ (N.of_nat (length bits + tsz t) < two64)%N.
+Definition input_ok (t : ty) (bits : list bool) : Prop := length bits mod 8 = 0 /\ (N.of_nat (length bits + tsz t + 8) < two64)%N.
 
-(* for the harness (requests `oser` / `odes`): buffers as bit lists *)
-Definition mk_options (little setzeros asserts : bool) : options :=
-  {| opt_little := little; opt_setzeros := setzeros; opt_asserts := asserts |}.
+(* for the harness (requests `oser` / `odes`) *)
+Definition mk_options (e : endianness) (omit_float asserts : bool) : options :=
+  {| target_endianness := e; omit_float_serialization_support := omit_float; enable_serialization_asserts := asserts |}.
